@@ -56,7 +56,7 @@ def RefKey.inFields (k : RefKey) : List Nat := [k.tgt, k.src, k.t, k.pred, if k.
 structure DB where
   versions : List (VKey × Ent) := []            -- log order (unique keys)
   changes : List (Nat × Nat × VKey) := []       -- (dataset, position, version key), log order
-  latest : List ((Nat × Nat) × VKey) := []      -- ((dataset, rid), key), newest binding first
+  latest : List ((Nat × Nat) × VKey) := []      -- ((dataset, rid), key): the latest pointers (a map)
   refs : List RefKey := []                      -- a set
   nextPos : List (Nat × Nat) := []              -- dataset ↦ next change position
   items : List (Nat × Nat) := []                -- dataset ↦ number of distinct ids (C19 ghost of the meta entity counter)
@@ -96,25 +96,32 @@ def writeRefs (rs : List RefKey) (ds t : Nat) (prev : Option Ent) (inBatch : Boo
         if inBatch then refDel rs' ⟨e.rid, t, r.1, r.2, true, ds⟩ else rs') rs
       (removedRefs p.refs e.refs).foldl (fun rs r => refSet rs ⟨e.rid, t, r.1, r.2, true, ds⟩) rs1
 
+/-- the version this write would replace: the in-batch predecessor if there is one, else the stored
+latest as of the read snapshot taken at function entry. -/
+def prevOf (snap : DB) (ds : Nat) (loc : List (Nat × Ent)) (rid : Nat) : Option Ent :=
+  match loc.lookup rid with
+  | some p => some p
+  | none => snap.stored ds rid
+
+/-- `newitems++` for an id that has no version in this dataset yet. -/
+def countNew (db : DB) (ds : Nat) (prev : Option Ent) : DB :=
+  if prev.isNone then { db with items := setAssoc ds (db.itemsOf ds + 1) db.items } else db
+
+/-- the `txn.Set` calls of one accepted element: entity, change log entry, latest pointer, ref keys. -/
+def appendVersion (db : DB) (ds t i : Nat) (e : Ent) (prev : Option Ent) (inBatch : Bool) : DB :=
+  let k : VKey := ⟨e.rid, ds, t, i⟩
+  { db with versions := db.versions ++ [(k, e)], changes := db.changes ++ [(ds, db.posOf ds, k)],
+            latest := setAssoc (ds, e.rid) k db.latest,
+            refs := writeRefs db.refs ds t prev inBatch e,
+            nextPos := setAssoc ds (db.posOf ds + 1) db.nextPos }
+
 /-- one iteration of the write loop. `snap` = read snapshot taken at function entry, `loc` =
-`localLatests`. Returns the new state, the in-batch map and whether the element was written. -/
+`localLatests`. The element is skipped iff it is identical to the version it would replace. -/
 def writeOne (snap : DB) (ds t : Nat) (st : DB × List (Nat × Ent)) (x : Nat × Ent) : DB × List (Nat × Ent) :=
-  let (db, loc) := st
-  let (i, e) := x
-  let local? := loc.lookup e.rid
-  let prev := match local? with
-    | some p => some p
-    | none => snap.stored ds e.rid
-  let db0 := if prev.isNone then { db with items := setAssoc ds (db.itemsOf ds + 1) db.items } else db
-  if (match prev with | some p => p.same e | none => false) then (db0, loc)
-  else
-    let k : VKey := ⟨e.rid, ds, t, i⟩
-    let pos := db0.posOf ds
-    ({ db0 with versions := db0.versions ++ [(k, e)], changes := db0.changes ++ [(ds, pos, k)],
-                latest := ((ds, e.rid), k) :: db0.latest,
-                refs := writeRefs db0.refs ds t prev local?.isSome e,
-                nextPos := setAssoc ds (pos + 1) db0.nextPos },
-     (e.rid, e) :: loc)
+  let prev := prevOf snap ds st.2 x.2.rid
+  let db0 := countNew st.1 ds prev
+  if prev = some x.2 then (db0, st.2)
+  else (appendVersion db0 ds t x.1 x.2 prev (st.2.lookup x.2.rid).isSome, (x.2.rid, x.2) :: st.2)
 
 def writeFrom (snap : DB) (ds t : Nat) : Nat → List Ent → DB × List (Nat × Ent) → DB × List (Nat × Ent)
   | _, [], st => st
@@ -135,15 +142,9 @@ def insertBy (lt : α → α → Bool) (x : α) : List α → List α
   | y :: ys => if lt x y then x :: y :: ys else y :: insertBy lt x ys
 def sortBy (lt : α → α → Bool) (l : List α) : List α := l.foldl (fun acc x => insertBy lt x acc) []
 
-/-- first binding of every key (map semantics of a newest-first association list). -/
-def dedupKeysAux [BEq κ] : List (κ × β) → List κ → List (κ × β)
-  | [], _ => []
-  | (k, v) :: rest, seen => if seen.contains k then dedupKeysAux rest seen else (k, v) :: dedupKeysAux rest (k :: seen)
-def dedupKeys [BEq κ] (l : List (κ × β)) : List (κ × β) := dedupKeysAux l []
-
 /-- latest-pointer keys of a dataset in iteration order (by rid), resolved to versions. -/
 def listAll (db : DB) (ds : Nat) : List (Nat × Ent) :=
-  let ptrs := (dedupKeys db.latest).filter (fun (p : (Nat × Nat) × VKey) => p.1.1 == ds)
+  let ptrs := db.latest.filter (fun (p : (Nat × Nat) × VKey) => p.1.1 == ds)
   let sorted := sortBy (fun (a b : (Nat × Nat) × VKey) => a.1.2 < b.1.2) ptrs
   sorted.filterMap fun (p : (Nat × Nat) × VKey) => (db.get p.2).map fun e => (p.1.2, e)
 
@@ -161,21 +162,42 @@ def listPage (db : DB) (ds : Nat) (from? : Option Nat) (count : Nat) : List Ent 
 def changesOf (db : DB) (ds : Nat) : List (Nat × VKey) :=
   sortBy (fun a b => a.1 < b.1) ((db.changes.filter (·.1 == ds)).map fun c => (c.2.1, c.2.2))
 
-/-- the iteration of `ProcessChangesRaw` over the entries at or after `since`. -/
-def scanChanges (db : DB) (ds : Nat) (latestOnly : Bool) (limit : Nat) :
-    List (Nat × VKey) → List Ent → Option Nat → List Ent × Option Nat
-  | [], acc, last => (acc, last)
+/-- the iteration of `ProcessChangesRaw` over the entries at or after `since`, generic in what a key
+emits (`none` = filtered out by the latest-only wrapper). Returns the emitted entities, the position
+of the last key looked at, and the keys not looked at (ghost, for the theorems). The limit counts
+*emitted* entities and is tested after an emission. -/
+def scanG (emit : κ → Option ε) (limit : Nat) : List (Nat × κ) → List ε → Option Nat → List ε × Option Nat × List (Nat × κ)
+  | [], acc, last => (acc, last, [])
   | (pos, k) :: rest, acc, _ =>
-    let emit := !latestOnly || db.latestOf ds k.rid == some k
-    let acc' := if emit then (match db.get k with | some e => acc ++ [e] | none => acc) else acc
-    if limit > 0 ∧ acc'.length = limit ∧ emit then (acc', some pos)
-    else scanChanges db ds latestOnly limit rest acc' (some pos)
+    match emit k with
+    | some e =>
+      if limit > 0 ∧ (acc ++ [e]).length = limit then (acc ++ [e], some pos, rest)
+      else scanG emit limit rest (acc ++ [e]) (some pos)
+    | none => scanG emit limit rest acc (some pos)
+
+/-- `Seek(since)`: the entries at or after a position. -/
+def fromPos (since : Nat) (es : List (Nat × κ)) : List (Nat × κ) := es.filter fun y => decide (since ≤ y.1)
+
+/-- one page: seek to `since`, scan, token = last position + 1 (or `since` when nothing was found). -/
+def pageG (emit : κ → Option ε) (es : List (Nat × κ)) (since limit : Nat) : List ε × Nat :=
+  let r := scanG emit limit (fromPos since es) [] none
+  (r.1, match r.2.1 with | some p => p + 1 | none => since)
+
+/-- a reader following its tokens through a list of limits. -/
+def pagesG (emit : κ → Option ε) (es : List (Nat × κ)) : Nat → List Nat → List (List ε) × Nat
+  | since, [] => ([], since)
+  | since, l :: ls =>
+    let p := pageG emit es since l
+    let r := pagesG emit es p.2 ls
+    (p.1 :: r.1, r.2)
+
+/-- what a change-log key emits: the version it points to, unless latest-only filters it out. -/
+def emitOf (db : DB) (ds : Nat) (latestOnly : Bool) (k : VKey) : Option Ent :=
+  if !latestOnly || db.latestOf ds k.rid == some k then db.get k else none
 
 /-- `ProcessChangesRaw(since, limit, latestOnly)` → (entities, next token). -/
 def changesPage (db : DB) (ds since limit : Nat) (latestOnly : Bool) : List Ent × Nat :=
-  let entries := (changesOf db ds).filter (·.1 ≥ since)
-  let r := scanChanges db ds latestOnly limit entries [] none
-  (r.1, match r.2 with | some p => p + 1 | none => since)
+  pageG (emitOf db ds latestOnly) (changesOf db ds) since limit
 
 /-- versions of an entity visible at `at` in the given scope, in key order. -/
 def visibleVersions (db : DB) (rid at_ : Nat) (scope : List Nat) : List (VKey × Ent) :=
@@ -234,9 +256,12 @@ def outStep (db : DB) (scope : List Nat) (pred at_ limit : Nat) (startKey : Opti
     if s2.stopped then s2
     else if !s2.reached ∧ startKey = some k then { s2 with reached := true } else s2
 
-/-- `GetRelatedAtTime`, outgoing branch. Returns results and the continuation key (`none` = last page). -/
+/-- `GetRelatedAtTime`, outgoing branch. Returns results and the continuation key (`none` = last page).
+The iterator also visits keys recorded after `at` and skips them (`et > from.At → continue`, which
+leaves the scan state untouched), so the model scans the keys of the past only, in reverse key order. -/
 def relatedOut (db : DB) (src pred at_ limit : Nat) (scope : List Nat) (startKey : Option RefKey) : List QRes × Option RefKey :=
-  let keys := sortBy (fun a b => lexLt b.outFields a.outFields) (db.refs.filter (·.src == src))   -- reverse order
+  let keys := sortBy (fun a b => lexLt b.outFields a.outFields)
+    ((db.refs.filter (fun r => decide (r.t ≤ at_))).filter (·.src == src))   -- reverse order
   let s := keys.foldl (outStep db scope pred at_ limit startKey) { reached := startKey.isNone }
   (s.results, if s.stopped then s.cont else none)
 
